@@ -188,6 +188,29 @@ func c19Pairs(r *vk.Rand) []pair {
 	ps = append(ps, pair{"shift-bytes", []aitem{aBytes(cat(x, z)), aBytes(y)}, []aitem{aBytes(x), aBytes(cat(z, y))}})
 	ps = append(ps, pair{"shift-sigmsg", []aitem{aMsg(cat(x, z)), aMsg(y)}, []aitem{aMsg(x), aMsg(cat(z, y))}})
 	ps = append(ps, pair{"shift-id", []aitem{aID("p" + string(x) + string(z)), aID("q" + string(y))}, []aitem{aID("p" + string(x)), aID(string(z) + "q" + string(y))}})
+	// identifiers that differ only where a fixed-width or padded encoding would not look: a trailing NUL, a tail
+	// beyond 32 bytes, padding to 32 bytes; the same as single items, inside identifier lists and for byte strings
+	{
+		short := "p" + string(x)
+		if len(short) > 20 {
+			short = short[:20]
+		}
+		long := string(r.Bytes(32))
+		padded := short + string(make([]byte, 32-len(short)))
+		for _, pp := range [][2]string{{short, short + "\x00"}, {short, padded}, {long + "A", long + "B"}, {long, long + "\x00"}, {long[:31], long[:31] + "\x00"}} {
+			ps = append(ps, pair{"id-tail", []aitem{aID(pp[0])}, []aitem{aID(pp[1])}})
+			ps = append(ps, pair{"id-tail-in-list", []aitem{aIDs([]string{pp[0], "zz"})}, []aitem{aIDs([]string{pp[1], "zz"})}})
+			ps = append(ps, pair{"bytes-tail", []aitem{aBytes([]byte(pp[0]))}, []aitem{aBytes([]byte(pp[1]))}})
+			ps = append(ps, pair{"sigmsg-tail", []aitem{aMsg([]byte(pp[0]))}, []aitem{aMsg([]byte(pp[1]))}})
+		}
+	}
+	// thresholds and round numbers that agree in their low byte(s)
+	for _, tp := range [][2]uint32{{1, 257}, {0, 256}, {2, 2 + 1<<16}, {3, 3 + 1<<24}, {255, 255 + 1<<31}} {
+		ps = append(ps, pair{"threshold-low-bytes", []aitem{aThr(tp[0])}, []aitem{aThr(tp[1])}})
+	}
+	for _, rp := range [][2]uint16{{1, 257}, {0, 256}, {5, 5 + 1<<15}} {
+		ps = append(ps, pair{"round-low-byte", []aitem{aRnd(rp[0])}, []aitem{aRnd(rp[1])}})
+	}
 	// domain/data shift
 	ps = append(ps, pair{"shift-domain-data", []aitem{aBWD("ab", []byte("c"))}, []aitem{aBWD("a", []byte("bc"))}})
 	ps = append(ps, pair{"shift-domain-data", []aitem{aBWD(string(x)+string(z), y)}, []aitem{aBWD(string(x), cat(z, y))}})
